@@ -46,6 +46,7 @@ SPECS.append({
   H("C13", DB, "Paired2Q", "thorough", ["paired", "nonempty"], "2 commands x 3 shapes, 1-2 query words, two boosted words", "same"),
   H("C13", DB, "Paired2NLPQ", "thorough", ["paired", "nonempty"], "same with UseNLP", "same"),
   H("C13", DB, "PairedAction", "both", ["paired", "nonempty"], "NLP on; the boosted word is an action / target word of the query (build, find, files, module); factor from the grid {1,1.3,1.5,1.6,1.8,2,3,1e6}", "boost on an already emphasised word never lowers a score"),
+  H("C13", DB, "PairedLongQuery", "both", ["paired", "nonempty"], "8-word query, term cap 4..7, boosted word among the later / earlier words, 3 factors, NLP on/off", "a query cut to the term cap keeps its candidate set under boosts"),
   H("C13", "internal/context", "Analyzer3", "both", ["analysed"], "3 of 14 marker names (types with several markers)", "each project type at most once even when its markers are not adjacent"),
   H("C13", "internal/context", "Analyzer1", "both", ["analysed"], "directory with 0-1 of 42 marker / non-marker names; Makefile = 4 symbolic bytes over {newline : # = . tab a b}; package.json with 1 script", "distinct types, generic iff nothing else, finite boosts >= 1, repeatable"),
   H("C13", "internal/context", "Analyzer2", "thorough", ["analysed"], "2 names, Makefile = 2 symbolic bytes", "same"),
@@ -56,6 +57,11 @@ SPECS.append({
 
 SPECS.append({
  "property_id": "C04", "level": "model_checking",
+ "flag_obligations": [
+  {"pkg": "internal/cli", "in_functions_calling": "SearchUniversal", "option_field": "Platforms", "flag": "platform", "msg": "the CLI hands the --platform values to the engine as given (the handlers print, so their results cannot be observed; the wiring is checked on their SSA)"},
+  {"pkg": "internal/cli", "in_functions_calling": "SearchUniversal", "option_field": "AllPlatforms", "flag": "all-platforms", "msg": "--all-platforms reaches the engine as given"},
+  {"pkg": "internal/cli", "in_functions_calling": "SearchUniversal", "option_field": "NoCrossPlatform", "flag": "no-cross-platform", "msg": "--no-cross-platform reaches the engine as given"},
+ ],
  "explanation": "SearchUniversal (lexical, NLP, typo-fallback paths) is executed symbolically on a database of commands with canonical, aliased, mixed-case, cross-platform and (thorough) symbolic platform tags, with every filter option a solver variable; each result is checked against an eligibility predicate spelled from the property statement (platforms in force, alias table, cross-platform rule, pipeline-only).",
  "assumptions": ["host platform = linux (runtime.GOOS is a constant of the SSA build)", "--platform values drawn from {none, windows, macos, linux+windows}", "database: 7 fixed commands (+1 with a symbolic 5-letter tag in the thorough tier)"],
  "stubs": ["regexp ASCII-class stub", "sort.Slice swapper"],
@@ -67,6 +73,7 @@ SPECS.append({
   H("C04", DB, "Fuzzy", "both", ["checked", "nonempty"], "typo fallback on 'a'+symbolic letter", "fallback gate (platform + pipeline)"),
   H("C04", DB, "LegacyPipeline", "both", ["checked"], "legacy pipeline search", "pipeline-only gate"),
   H("C04", DB, "Cached", "both", ["checked", "nonempty"], "two requests through the cache layer (cached or monitored entry point); first: 2 flags, second: all 2^3 flags x 4 platform lists", "a cached answer passes the filter of the request it answers"),
+  H("C04", DB, "EditedInPlace", "both", ["checked", "nonempty"], "the pipeline entry loses its flag and / or its pipe in place after the index was built; all filter flags symbolic", "the pipeline gate reads the command as it is now"),
   H("C04", DB, "LexicalTag", "thorough", ["checked", "nonempty"], "one command with a symbolic 5-letter mixed-case platform tag", "alias table / case-insensitivity"),
  ],
  "manifest": {"text": "Bounded symbolic model checking of the platform / pipeline gate on every search path with all filter options as solver variables and an eligibility oracle spelled from the property.",
@@ -86,6 +93,8 @@ SPECS.append({
   H("C07", DB, "OnlyFallbackExpansion", "both", ["lexical-answer", "no-lexical-answer"], "8 commands named like hint targets; symbolic 4-letter query word (+ optional second word), NLP on", "answers that exist only through NLP expansion are not overridden either"),
   H("C07", DB, "FallbackLongText", "both", ["fallback", "fallback-nonempty"], "a 132-character command text; 2 symbolic query letters; threshold 0 / -1000", "a genuine match with a very low raw score is still returned"),
   H("C07", DB, "FallbackCase", "both", ["fallback", "fallback-nonempty"], "4 commands with camelCase / plain texts, lower-case caches filled or not; 4 queries", "results scored on the command's own text (reference: the real matcher on that text); completeness"),
+  H("C07", DB, "FallbackFiltered", "both", ["fallback", "fallback-nonempty"], "4 better-matching windows-only commands + 1 eligible linux pipeline command; limit 1-2; pipeline-only / all-platforms flags", "ineligible matches do not crowd out an eligible one"),
+  H("C07", DB, "FallbackPunct", "both", ["fallback", "fallback-nonempty"], "queries with one symbolic punctuation byte (! .. /) in 3 shapes", "the fallback matches the query as typed"),
   H("C07", DB, "Matcher23", "both", ["matched", "unmatched"], "pattern 1-2, target 0-3 symbolic ASCII bytes", "match <=> in-order occurrence; index sanity"),
   H("C07", DB, "Matcher24", "thorough", ["matched", "unmatched"], "pattern 1-2, target 0-4 symbolic ASCII bytes", "same"),
   H("C07", DB, "Fallback3", "both", ["fallback", "fallback-nonempty"], "3 commands with long words, 2 symbolic query letters, threshold any int", "genuine matches, threshold, order, completeness"),
@@ -108,6 +117,7 @@ SPECS.append({
   H("C10", DB, "Suggestions", "both", ["returned"], "command text with 2 arbitrary bytes, max any int", "GetSuggestions", panic_freedom=True),
   H("C10", DB, "Query2", "both", ["returned"], "query = 2 arbitrary bytes; limit, term cap, threshold any int; pipeline boost any float64", "SearchUniversal total", panic_freedom=True),
   H("C10", DB, "Query2NLP", "both", ["returned"], "same with UseNLP", "same", panic_freedom=True),
+  H("C10", DB, "LongQueryCap", "both", ["returned"], "3 queries of 5-12 words; term cap any int; NLP on/off", "term selection never slices out of range"),
   H("C10", DB, "Query3", "thorough", ["returned"], "3 arbitrary bytes", "same", panic_freedom=True),
   H("C10", DB, "EmptyFields", "both", ["returned"], "entries with empty / blank command, description, keyword, tag; 5 queries; NLP / fuzzy symbolic; 4 entry points", "well-formed entries with missing fields never crash a search", panic_freedom=True),
   H("C10", DB, "Tokenize3", "both", ["returned"], "tokeniser on 3 arbitrary bytes", "tokeniser total, token invariants"),
@@ -133,6 +143,8 @@ SPECS.append({
   H("C16", "internal/history", "Step3", "thorough", ["stepped", "roundtrip"], "max_size 1..3", "same", synctest=True),
   H("C16", "internal/history", "Views2", "both", ["views"], "0..2 entries, limit 0..n+1", "recent / top / stats agree with the entries", synctest=True),
   H("C16", "internal/history", "ReloadOther", "both", ["roundtrip"], "an instance holding 0-2 entries loads a file saved (or cleared) by another instance holding 0-2", "a loaded instance holds what the file holds (omitempty-style absent keys included)", synctest=True),
+  H("C16", "internal/history", "CaseRepeat", "both", ["stepped"], "two consecutive searches whose queries are equal, or differ in letter case only", "only an identical query is an immediate repeat", synctest=True),
+  H("C16", "internal/history", "ManyDistinct", "both", ["views"], "9-12 distinct queries", "views and statistics beyond any default limit", synctest=True),
   H("C16", "internal/history", "Views5", "both", ["views"], "4-5 entries over 3 concrete queries, limit 0..n+1", "non-adjacent repeats; distinct queries further back than the newest limit entries", synctest=True),
   H("C16", "internal/history", "Views3", "thorough", ["views"], "3 entries", "same", synctest=True),
  ],
@@ -217,6 +229,7 @@ SPECS.append({
   H("C20", DB, "EndToEnd5NLP", "thorough", ["compared", "nonempty"], "2+2 letters, NLP", "same"),
   H("C20", DB, "Sentence", "both", ["stages"], "2 sentences of 28-35 letters with context clues, every case mask (one mask bit per letter)", "context-clue detection ignores case"),
   H("C20", DB, "StopWords", "both", ["compared", "nonempty"], "command texts with capitalised stop words; 2 sentences, every case mask; NLP re-ranking", "TF-IDF side ignores case"),
+  H("C20", "internal/recovery", "Recovery", "both", ["compared", "nonempty"], "3 queries through the CLI's last-resort search, one case-mask bit per letter", "recovery search ignores case"),
   H("C20", "internal/validation", "WhitespaceUnicode", "both", ["compared"], "two 1-byte words; leading / interior / trailing runs from 7 white-space strings incl. U+00A0, U+3000, U+2003", "Unicode white space is white space"),
   H("C20", "internal/validation", "Whitespace", "both", ["compared"], "two words of printable non-meta ASCII; pads of 0-2 symbolic whitespace bytes", "padding never changes the searched query"),
  ],
@@ -235,6 +248,7 @@ SPECS.append({
   H("C02", DB, "Ties3", "both", ["compared", "nonempty"], "3 commands (2 identical), symbolic query word, limit 1..2, maps <=3 entries in all orders", "repeated SearchUniversal"),
   H("C02", DB, "Ties3NLP", "both", ["compared", "nonempty"], "same with UseNLP", "repeated SearchUniversal (NLP)"),
   H("C02", DB, "ThreeTerms", "both", ["compared", "nonempty"], "3 commands (2 matching), 3-4 word queries whose words all hit one command; second run with maps <= 3 entries in every order", "three-term score sums independent of any map order", maporder=3),
+  H("C02", DB, "RepeatUnfilled", "both", ["compared", "nonempty"], "3 commands handed over as a plain list (cached lower-case fields empty), 3 NLP queries whose action and target co-occur, asked twice", "no engine-owned state filled by the first call changes the second"),
   H("C02", DB, "Ties5", "thorough", ["compared", "nonempty"], "5 commands, maps <=4 entries", "repeated SearchUniversal"),
   H("C02", DB, "Reload", "both", ["compared"], "two independently built databases, NLP on", "re-loading the same content"),
   H("C02", DB, "Suggestions", "both", ["compared"], "3-word candidate set, all orders", "did-you-mean reproducibility"),
@@ -257,6 +271,7 @@ SPECS.append({
   H("C05", DB, "PairsMonitored", "both", ["searched", "done"], "2 requests through the monitoring wrapper; 6 option sets x 5 queries each", "monitored wrapper's own projection", synctest=True),
   H("C05", DB, "MonitoredReload", "both", ["searched", "done"], "search (3 entry points); replace through LoadDatabaseWithMonitoring or UpdateDatabase; search", "no cached answer survives a replacement made through the monitoring entry point", synctest=True),
   H("C05", "internal/cache", "SmallCache", "both", ["hit", "miss", "done"], "SearchCache of capacity 1-2; 5 steps of put / get over 3 requests", "an answer found is the one last stored for that very request (eviction churn)"),
+  H("C05", "internal/cache", "LongAnswer", "both", ["done"], "answers of 1 / 99 / 100 / 101 / 150 results", "cached answers come back whole"),
   H("C05", DB, "OffOn", "both", ["searched", "done"], "search; optionally disable; replace / invalidate / nothing; optionally search while off; enable; search", "no entry outlives a replacement made while the cache is off (also C01 on the cached path)", synctest=True),
   H("C05", DB, "Hist3", "thorough", ["searched", "done"], "search, one of 6 operations, search", "no entry outlives invalidation / replacement; disabled cache is bypassed", synctest=True),
  ],
@@ -305,6 +320,8 @@ SPECS.append({
   H("C18", "internal/metrics", "CollectorLocks", "both", ["called"], "get-or-create of 4 metric kinds, GetAllMetrics; one call from an arbitrary warm / cold registry", "lock discipline of the registry (get-or-create re-validates under the write lock): obligation for every schedule, no native replay", panic_freedom=True),
   H("C18", "internal/metrics", "CounterAtomic", "both", ["called"], "8 methods of Counter / Gauge", "counter words touched only through sync/atomic", panic_freedom=True),
   H("C18", "internal/metrics", "HistogramLocks", "both", ["called"], "5 methods", "histogram fields only under its mutex", panic_freedom=True),
+  H("C18", "internal/metrics", "Identity3C", "both", ["identity"], "three concrete tags, every order of the tag map", "same identity => same metric"),
+  H("C18", "internal/metrics", "Overflow", "both", ["observed"], "1-3 observations from {5, 10000, 10001, 1e9}", "observations beyond the last bucket bound are counted"),
   H("C18", "internal/metrics", "PercentileGrid", "both", ["observed"], "1-3 observations into chosen buckets; percentile grid 0..100 incl. end points", "monotone percentiles on the grid"),
   H("C18", "internal/metrics", "Histogram1", "thorough", ["observed"], "0-1 symbolic observation, default buckets, symbolic percentiles", "count / sum / buckets / monotone percentiles", timeout_ms=600000),
   H("C18", "internal/metrics", "Histogram2B", "thorough", ["observed"], "1-2 observations, 3 symbolic ascending buckets", "same", timeout_ms=600000),
@@ -328,7 +345,7 @@ SPECS.append({
   H("C19", "internal/embedding", "CosineSmall2", "thorough", ["cosine"], "dimension 2; components symbolic integers 0..15; second vector equal or independent", "|cos| <= 1 decided by cvc5 through sqrt and division (found a = b = (15, 9) -> 1.0000000000000002)", fp_timeout_ms=300000),
   H("C19", "internal/embedding", "CosineShapes", "both", ["cosine"], "empty, mismatched, zero vectors", "zero cases"),
   H("C19", "internal/embedding", "LoadWords4", "both", ["rejected"], "word-vector file of 0-4 symbolic bytes", "no panic, bounded allocation"),
-  H("C19", "internal/embedding", "LoadWords8", "both", ["rejected"], "5-8 symbolic bytes", "same"),
+  H("C19", "internal/embedding", "LoadWords8", "both", ["rejected"], "5-8 symbolic bytes; word-length field <= 16, or 129 / 300 / 65535", "same"),
   H("C19", "internal/embedding", "LoadCmds8", "both", ["rejected", "loaded"], "command-embedding file of 0-8 symbolic bytes", "same"),
   H("C19", "internal/embedding", "LoadCmds12", "both", ["rejected"], "12 symbolic bytes", "same"),
   H("C19", "internal/embedding", "LoadMissing", "both", ["rejected"], "missing files", "errors, not crashes"),
